@@ -279,7 +279,50 @@ package dnsserver
 
 // Undecodable bytes: nothing is written, the handler is not reached.
 //@ func (*ServerBase).serveDNS
-//@   property C01
+//@   property C01 C06
 //@   requires rw != nil && s.handler != nil && s.metrics != nil && s.disposer != nil
+//@   requires own-bytes-only: off(buf) + len(buf) <= stamped[arr(buf)]
 //@   modifies heap, served, servedReq, servedRW, servedErr, writes, wroteReq, wroteResp, wroteId, wroteRcode, wroteNQ, wroteQ, truncSize, disposed
 //@   ensures written-iff-a-write-happened: written <==> writes[rw] > old(writes[rw])
+
+// ---------------------------------------------------------------------------
+// C06: a message is decoded from its own bytes only.  stamped[a] (declared in
+// /verif/contracts/ext/recv.spec) is the number of leading bytes of backing
+// array a that belong to the message received now; the decoder's precondition
+// is that every byte it is given is stamped.
+
+// On the non-panicking paths that the proofs follow, recover() returns nil and
+// the panic handlers do nothing.
+//@ func (*ServerBase).handlePanicAndRecover
+//@   modifies nothing
+//@ func (*ServerBase).handlePanicAndExit
+//@   modifies nothing
+
+//@ interface ContextConstructor method New
+//@   modifies nothing
+
+//@ pred SD(s *ServerDNS) = s != nil && s.ServerBase != nil && s.ServerBase.reqCtx != nil && s.ServerBase.handler != nil && s.ServerBase.metrics != nil &&
+//@        s.ServerBase.disposer != nil && s.udpPool != nil && s.workerPool != nil
+
+//@ func (*ServerDNS).readUDPMsg
+//@   property C06
+//@   requires SD(s) && conn != nil && off(buf) == 0
+//@   modifies elems(buf), stamped[arr(buf)]
+//@   ensures err == nil ==> 12 <= n && n <= len(buf) && stamped[arr(buf)] == n && sess != nil
+
+//@ func (*ServerDNS).acceptUDPMsg
+//@   property C06
+//@   requires SD(s) && conn != nil
+//@   modifies allelems(byte), stamped
+
+//@ func (*ServerDNS).acceptUDPMsg$1
+//@   property C06
+//@   requires SD(s) && conn != nil && sess != nil && bufPtr != nil
+//@   requires own-bytes-only: 0 <= n && n <= len(deref(bufPtr)) && off(deref(bufPtr)) == 0 && n <= stamped[arr(deref(bufPtr))]
+//@   modifies heap, served, servedReq, servedRW, servedErr, writes, wroteReq, wroteResp, wroteId, wroteRcode, wroteNQ, wroteQ, truncSize, disposed
+
+//@ func (*ServerDNS).serveUDPPacket
+//@   property C01 C06
+//@   requires SD(s) && conn != nil && sess != nil
+//@   requires own-bytes-only: off(buf) + len(buf) <= stamped[arr(buf)]
+//@   modifies heap, served, servedReq, servedRW, servedErr, writes, wroteReq, wroteResp, wroteId, wroteRcode, wroteNQ, wroteQ, truncSize, disposed
